@@ -63,10 +63,14 @@ Fixpoint trace_ok (cap : N -> N) (bs : N) (st : heap * fstate) (hist : list op) 
       let ok_bytes :=
         match o with
         | SL =>
-            let ha := match h_loaded h with Some (a, _) => a | None => f_next fs end in
-            let ba := match h_loaded h with Some (_, b) => b | None => f_next fs + HDR_SIZE end in
-            (crc32 (slice (f_bytes fs1) ha HDR_SIZE) =? o_hdrcrc e)
-            && (crc32 (slice (f_bytes fs1) ba (db_size (h_blk h))) =? o_blkcrc e)
+            match store h fs with
+            | Err => bytes_eqb (f_bytes fs1) (f_bytes fs)     (* refused: the file is untouched *)
+            | Ok _ =>
+                let ha := match h_loaded h with Some (a, _) => a | None => f_next fs end in
+                let ba := match h_loaded h with Some (_, b) => b | None => f_next fs + HDR_SIZE end in
+                (crc32 (slice (f_bytes fs1) ha HDR_SIZE) =? o_hdrcrc e)
+                && (crc32 (slice (f_bytes fs1) ba (db_size (h_blk h))) =? o_blkcrc e)
+            end
         | _ => true
         end in
       let '(okr, ambr, stf) := trace_ok cap bs (h1, fs1) r es' in
@@ -81,17 +85,21 @@ Record robs := mkRObs { r_id : bytes; r_ro_ok : bool; r_ro_len : N; r_ro_crc : N
 Definition res_matches (r : res bytes) (ok : bool) (n c : N) : bool :=
   match r with Ok x => ok && dg_eqb x n c | Err => negb ok end.
 
-Definition final_ok (st : heap * fstate) (hdrcrc : N) (blkcrc : N) (rs : list robs) : bool :=
+Definition final_ok (st : heap * fstate) (store_ok : bool) (hdrcrc : N) (blkcrc : N) (rs : list robs) : bool :=
   let '(h, fs) := st in
-  let '(h1, fs1, ha) := store h fs in
-  let f := f_bytes fs1 in
-  (crc32 (slice f ha HDR_SIZE) =? hdrcrc)
-  && (crc32 (slice f (h_root h1) (db_size (h_blk h1))) =? blkcrc)
-  && forallb (fun r => res_matches (ro_read f ha (r_id r)) (r_ro_ok r) (r_ro_len r) (r_ro_crc r)
-                       && res_matches (core_read f ha (r_id r)) (r_core_ok r) (r_core_len r) (r_core_crc r)) rs.
+  match store h fs with
+  | Err => negb store_ok
+  | Ok (h1, fs1, ha) =>
+      let f := f_bytes fs1 in
+      store_ok
+      && (crc32 (slice f ha HDR_SIZE) =? hdrcrc)
+      && (crc32 (slice f (h_root h1) (db_size (h_blk h1))) =? blkcrc)
+      && forallb (fun r => res_matches (ro_read f ha (r_id r)) (r_ro_ok r) (r_ro_len r) (r_ro_crc r)
+                           && res_matches (core_read f ha (r_id r)) (r_core_ok r) (r_core_len r) (r_core_crc r)) rs
+  end.
 
 Record tcase := mkCase { c_bs : N; c_hist : list op; c_obs : list obs;
-                         c_hdrcrc : N; c_blkcrc : N; c_readers : list robs }.
+                         c_store_ok : bool; c_hdrcrc : N; c_blkcrc : N; c_readers : list robs }.
 
 Definition out_eqb (a b : out) : bool :=
   match a, b with
@@ -108,7 +116,7 @@ Definition out_eqb (a b : out) : bool :=
 Definition case_code (cap : N -> N) (c : tcase) : N :=
   let st0 := (new_heap (c_bs c), fs0) in
   let '(ok, amb, st) := trace_ok cap (c_bs c) st0 (c_hist c) (c_obs c) in
-  let fin := final_ok st (c_hdrcrc c) (c_blkcrc c) (c_readers c) in
+  let fin := final_ok st (c_store_ok c) (c_hdrcrc c) (c_blkcrc c) (c_readers c) in
   let cc := (if ok then (if fin then 0 else 2) else 1) + (if 0 <? amb then 4 else 0) in
   let sc := match spec_run (c_bs c) spec0 (c_hist c) with
             | None => 0
